@@ -11,8 +11,9 @@
    GetJsonNameFromTag, IsFieldRequired, AppendErrorSchema), swagen30/paths_generator.go.
 
    The model describes the tree with the fixes F17 (unexported / json:"-" fields are not part of
-   the model), F19 (3.1 string enum values are tagged as strings) and F22 (a json tag without
-   a name keeps the field name) applied; F6, F9, F16, F18 are modelled as they are. *)
+   the model) and F22 (a json tag without a name keeps the field name) applied; F6, F9, F16, F18
+   are modelled as they are.  F19: the 3.1 emitter writes string enum values as untagged YAML
+   scalars; the model covers the values YAML resolves to strings (see [enum_value]). *)
 From Gleece Require Import Base.Bytes Base.Sorting Model.Project Model.Spec.
 From Coq Require Import String.
 Open Scope list_scope.
@@ -302,8 +303,10 @@ Inductive dialect := V30 | V31.
 
 Definition is_string_base (b : str) : bool := str_eqb (openapi_type b) (s "string").
 
-(* generateEnumSpec (3.0: every value is a JSON string - F18) / generateEnumsSpec (3.1: the YAML
-   scalar is resolved by its text for non-string kinds and tagged as a string otherwise) *)
+(* generateEnumSpec (3.0: every value is a JSON string - F18) / generateEnumsSpec (3.1: an
+   untagged YAML scalar, resolved by its text: numbers and booleans for the numeric and boolean
+   kinds; for the string kind the text is assumed to resolve to a string - letters, digits,
+   blank, dash, underscore, no YAML keyword - other texts come out retyped, F19) *)
 Definition enum_value (v : dialect) (base : str) (text : str) : evalue :=
   match v with
   | V30 => EStr text
